@@ -270,8 +270,8 @@ def src_of(tree):
         return '<cannot unparse: %s>' % type(e).__name__
 
 
-def judge(src, mode='global', use_cache=True):
-    p = prepare(src, mode)
+def judge(src, mode='global', use_cache=True, prepared=None):
+    p = prepared if prepared is not None else prepare(src, mode)
     tree, exc = reconstruct(p, use_cache)
     if exc is not None:
         return Verdict('rejected', detail=type(exc).__name__, njumps=p.njumps, prepared=p)
